@@ -5,6 +5,7 @@ collections are SMT sequences / sets (arrays to Bool) / maps; scalars are Int/Bo
 Paths fork at symbolic branches; exceptions of the analysed program are collected in sinks.
 """
 import ast
+import os
 import z3
 
 from .kinds import (V, VNone, NONE, VTuple, VList, VDict, VFunc, VClass, VModule, VExc, Kind,
@@ -65,6 +66,9 @@ def exc_isinstance(cls, target):
         cls = EXC_ALIAS.get(cls, cls)
         seen += 1
     return False
+
+
+RLIMIT_PER_MS = int(os.environ.get("VERIF_RLIMIT_PER_MS", "600"))
 
 
 class State:
@@ -376,7 +380,10 @@ class Engine:
     # ------------------------------------------------------------------ solver
     def check(self, constraints, timeout=None):
         s = z3.Solver()
-        s.set("timeout", timeout or self.feas_timeout)
+        # nominal milliseconds enforced by z3's deterministic resource counter (see contract._solve)
+        budget = timeout or self.feas_timeout
+        s.set("timeout", int(budget * 30))
+        s.set("rlimit", int(budget * RLIMIT_PER_MS))
         for c in constraints:
             s.add(c)
         self.stats["feas_checks"] += 1
@@ -864,7 +871,8 @@ class Engine:
             if fs is not None and fs.is_property and f"{cls}.{attr}" not in self.overrides:
                 yield from self.nonnull(obj, st, node, lambda st2: self.inline(fs, [obj], {}, st2, node))
                 return
-            if f"{cls}.{attr}" in self.overrides and (fs is None or fs.is_property):
+            if f"{cls}.{attr}" in self.overrides and ((fs is None and self.schema_lookup(cls, "methods", attr) is None)
+                                                      or (fs is not None and fs.is_property)):
                 yield from self.nonnull(obj, st, node, lambda st2: self.overrides[f"{cls}.{attr}"](self, st2, obj, [], {}, node))
                 return
             yield st, VFunc("bound", recv=obj, name=attr, cls=cls)
@@ -872,6 +880,23 @@ class Engine:
         if isinstance(obj, VModule):
             yield st, self.models.module_attr(self, obj, attr, st, node)
             return
+        if isinstance(obj, VFunc) and obj.how == "super":
+            info = self.index.classes.get(obj.cls)
+            for base in ([b.split(".")[-1] for b in info["bases"]] if info else []):
+                fsm = self.index.method(base, attr)
+                if fsm is None:
+                    continue
+                key = fsm.qualname
+                recv = obj.recv
+                if key in self.overrides:
+                    h = self.overrides[key]
+                    yield st, VFunc("handler", fn=lambda e, s, a, k, n: h(e, s, recv, a, k, n), name=key)
+                elif fsm.is_staticmethod:
+                    yield st, VFunc("repo", fs=fsm, name=key)
+                else:
+                    yield st, VFunc("handler", fn=lambda e, s, a, k, n: e.inline(fsm, [recv] + a, k, s, n), name=key)
+                return
+            raise Untranslatable(f"super().{attr} of {obj.cls}", node)
         if isinstance(obj, VClass):
             yield from self.models.class_attr(self, obj, attr, st, node)
             return
@@ -959,6 +984,14 @@ class Engine:
             for st1, _ in self.ev_list([a for a in e.args], st):
                 for st2, _ in self.ev_list([k.value for k in e.keywords], st1):
                     yield st2, NONE
+            return
+        # super() inside a method: a proxy that resolves attributes from the bases of the defining class
+        if isinstance(e.func, ast.Name) and e.func.id == "super" and not e.args and "super" not in st.locals:
+            fs = self.func_stack[-1]
+            first = fs.node.args.args[0].arg if fs.node.args.args else None
+            if fs.cls is None or first is None:
+                raise Untranslatable("super() outside a method", e)
+            yield st, VFunc("super", cls=fs.cls, recv=st.locals[first], name="super")
             return
         for st1, f in self.ev_callee(e.func, st):
             for st2, args in self.ev_list(e.args, st1):
